@@ -18,7 +18,7 @@ Init == /\ InitMsg("RUNNING")
 Aux == UNCHANGED <<nextIdx, nextInst, injected, stopped>>
 
 Start(s) == /\ cur[s] = 0 /\ nextIdx[s] <= Len(Plan[s])
-            /\ LET e == Plan[s][nextIdx[s]] IN Enter(nextInst, s, e.d, e.f, "user", nextInst)
+            /\ LET e == Plan[s][nextIdx[s]] IN Enter(nextInst, s, e.d, e.f, "user", nextInst, -1)
             /\ cur' = [cur EXCEPT ![s] = nextInst]
             /\ nextIdx' = [nextIdx EXCEPT ![s] = @ + 1]
             /\ nextInst' = nextInst + 1
